@@ -84,9 +84,20 @@ var hexLikeMh = func() multihash.Multihash {
 }()
 
 // mhFor is the multihash a request of path kind pk asks for.
+func longMh(n int) multihash.Multihash {
+	mh, _ := multihash.Sum(bytes.Repeat([]byte("verif-c19-long-key-"), 8)[:n], multihash.IDENTITY, -1)
+	return mh
+}
+
 func mhFor(pk string) multihash.Multihash {
 	if pk == "mh-b58-hexlike" {
 		return hexLikeMh
+	}
+	if pk == "mh-b58-long" {
+		return longMh(100)
+	}
+	if pk == "mh-hex-long" {
+		return longMh(70)
 	}
 	return theMh()
 }
@@ -96,6 +107,10 @@ func pathFor(pk string) string {
 	switch pk {
 	case "mh-b58-hexlike":
 		return "/multihash/" + hexLikeMh.B58String()
+	case "mh-b58-long":
+		return "/multihash/" + longMh(100).B58String()
+	case "mh-hex-long":
+		return "/multihash/" + hex.EncodeToString(longMh(70))
 	case "mh-b58":
 		return "/multihash/" + mh.B58String()
 	case "mh-hex":
@@ -503,6 +518,22 @@ func Run(args []string) *rep.Report {
 		d = apierror.DecodeError(apierror.EncodeError(wrapped))
 		if !errors.As(d, &ae) || ae.Status() != st || !strings.Contains(d.Error(), "looking up providers") || !strings.Contains(d.Error(), "inner cause") {
 			r.Diverge(rep.Divergence{Key: "apierror-round-trip", Detail: fmt.Sprintf("wrapped error with status %d (%q) came back as %q", st, wrapped, d)})
+		}
+	}
+	// the law in one line: DecodeError(EncodeError(e)) says what e says and has e's status -- for every way of making e
+	for _, st := range []int{400, 404, 429, 500, 503} {
+		for name, e := range map[string]error{
+			"status only, wrapped by the caller":         fmt.Errorf("find providers: %w", apierror.New(nil, st)),
+			"status only, wrapped twice":                 fmt.Errorf("outer: %w", fmt.Errorf("inner: %w", apierror.New(nil, st))),
+			"an error whose message is the empty string": apierror.New(errors.New(""), st),
+			"message and status, wrapped":                fmt.Errorf("find providers: %w", apierror.New(errors.New("no such thing"), st)),
+			"a message that is only white space":         apierror.New(errors.New("  "), st),
+		} {
+			d := apierror.DecodeError(apierror.EncodeError(e))
+			var ae *apierror.Error
+			if d == nil || !errors.As(d, &ae) || ae.Status() != st || d.Error() != e.Error() {
+				r.Diverge(rep.Divergence{Key: "apierror-round-trip", Detail: fmt.Sprintf("%s, status %d: %q came back as %q (%T)", name, st, e.Error(), d, d)})
+			}
 		}
 	}
 	for _, st := range []int{400, 404, 429, 500, 503} {
